@@ -208,3 +208,33 @@ VARIANTS += [
     V('C13', 'twin: tuple key in a local', CR, "            if (column, value) not in ignored_values:\n                global_storage[(column, value)] += 1", "            pair = (column, value)\n            if pair not in ignored_values:\n                global_storage[pair] += 1", expect='clean'),
     V('C13', 'twin: unique() for the sketch', CR, "        unique_values = set(column_data)\n", "        unique_values = set(column_data.values)\n", expect='clean'),
 ]
+
+# ---------------------------------------------------------------- C12
+RTF = 'outrank/feature_transformations/ranking_transformers.py'
+FWF = 'outrank/feature_transformations/feature_transformer_vault/fw_transformers.py'
+DEFF = 'outrank/feature_transformations/feature_transformer_vault/default_transformers.py'
+VARIANTS += [
+    V('C12', 'F8 reintroduced: reset inside preset loop', RTF, "        self.transformer_collection: dict[str, str] = dict()\n        for transformer_namespace in preset.split(','):\n", "        for transformer_namespace in preset.split(','):\n            self.transformer_collection: dict[str, str] = dict()\n"),
+    V('C12', 'collection aliases vault dict', RTF, "                self.transformer_collection = {\n                    **self.transformer_collection,\n                    **transformer_subspace,\n                }", "                if not self.transformer_collection:\n                    self.transformer_collection = transformer_subspace\n                else:\n                    self.transformer_collection.update(transformer_subspace)"),
+    V('C12', 'majority threshold 0.9', RTF, "self.max_maj_support = 0.80", "self.max_maj_support = 0.90"),
+    V('C12', 'majority <= ', RTF, "and cfreq < self.max_maj_support", "and cfreq <= self.max_maj_support"),
+    V('C12', 'nan threshold swapped with majority', RTF, "and nan_prop < self.nan_prop_support", "and nan_prop < self.max_maj_support"),
+    V('C12', 'distinct >= 1', RTF, "len(u) > 1\n", "len(u) >= 1\n"),
+    V('C12', 'nan condition dropped', RTF, "                    and nan_prop < self.nan_prop_support\n", ""),
+    V('C12', 'majority over unique count', RTF, "cfreq = np.divide(np.max(c), np.sum(c))", "cfreq = np.divide(np.max(c), len(c))"),
+    V('C12', 'empty parses to nan', RTF, "cvals = [0.0 if len(x) == 0 else float(x) for x in cvals]", "cvals = [np.nan if len(x) == 0 else float(x) for x in cvals]"),
+    V('C12', 'empty rows skipped', RTF, "cvals = [0.0 if len(x) == 0 else float(x) for x in cvals]", "cvals = [float(x) for x in cvals if len(x) > 0]"),
+    V('C12', 'fw sqrt uses log', FWF, "f'np.round(np.sqrt(X-{greater_than})*{resolution},0), 0))'", "f'np.round(np.log(X-{greater_than})*{resolution},0), 0))'"),
+    V('C12', 'fw res/gt swapped in name', FWF, "FW_TRANSFORMERS[f'_tr_fw_sqrt_res_{resolution}_gt_{greater_than}'] = (", "FW_TRANSFORMERS[f'_tr_fw_sqrt_res_{greater_than}_gt_{resolution}'] = ("),
+    V('C12', 'fw prob threshold not divided', FWF, "    for greater_than in [np.divide(x, 100) for x in greater_than_range]:", "    for greater_than in [np.divide(x, 10) for x in greater_than_range]:", expect='clean'),
+    V('C12', 'fw inner threshold off', FWF, "np.where(X >{greater_than}, np.round(np.log(X-{greater_than})*{resolution},0), 0))'\n\nfor", "np.where(X >{greater_than}, np.round(np.log(X-{resolution})*{resolution},0), 0))'\n\nfor"),
+    V('C12', 'fw rounding to 1 decimal', FWF, "np.round(np.sqrt(X-{greater_than})*{resolution},0), 0))'\n\n        FW_TRANSFORMERS[\n            f'_tr_fw_prob_log", "np.round(np.sqrt(X-{greater_than})*{resolution},1), 0))'\n\n        FW_TRANSFORMERS[\n            f'_tr_fw_prob_log"),
+    V('C12', 'minimal sqrt formula drifts from default', DEFF, "MINIMAL_TRANSFORMERS = {\n    '_tr_sqrt': 'np.sqrt(X)',", "MINIMAL_TRANSFORMERS = {\n    '_tr_sqrt': 'np.sqrt(np.abs(X))',"),
+    V('C12', 'log(x+1) becomes log(x)', DEFF, "    '_tr_log(x+1)': 'np.log(X + 1)',", "    '_tr_log(x+1)': 'np.log(X)',", count=4),
+    V('C12', 'column named by transformer only', RTF, "feature_name = f'{numeric_column}{k}'", "feature_name = f'{k}'"),
+    V('C12', 'X from wrong column', RTF, "X = self.get_vals(dataframe, numeric_column)", "X = self.get_vals(dataframe, dataframe.columns[0])"),
+    V('C12', 'twin: dict union operator', RTF, "                self.transformer_collection = {\n                    **self.transformer_collection,\n                    **transformer_subspace,\n                }", "                self.transformer_collection = self.transformer_collection | transformer_subspace", expect='clean'),
+    V('C12', 'twin: threshold literal 4/5', RTF, "self.max_maj_support = 0.80", "self.max_maj_support = 4 / 5", expect='clean'),
+    V('C12', 'twin: parse spelled the other way round', RTF, "cvals = [0.0 if len(x) == 0 else float(x) for x in cvals]", "cvals = [float(x) if x else 0.0 for x in cvals]", expect='clean'),
+    V('C12', 'twin: fw formula spacing', FWF, "f'np.where(X < {greater_than}, '\n            f'X, '\n            f'np.where(X>{greater_than} ,'", "f'np.where(X<{greater_than}, '\n            f'X, '\n            f'np.where(X > {greater_than},'", expect='clean'),
+]
